@@ -45,6 +45,9 @@ type Ctx struct {
 	useCHA      bool
 	fileSrc     map[string][]byte
 	boundsCache map[*ssa.Function]*linAn
+	encCl       *encClosure
+	escCache    map[string][]escLine
+	thorough    bool
 }
 
 // Load type-checks the root module of repo and builds SSA for the whole program.
